@@ -16,7 +16,7 @@ RULE = ('every shipped Transformation constant (all enumerated) and random sets 
         'inputs {none, SPD, rank-1, rank-2, zero, diagonal, condition 1e8}.  conform7 judged against the exact rational formula '
         '(1 um); set then negated set returns the start within the stated caps (0.01 mm; 2 mm for AGD sets) / the exactly '
         'evaluated second-order residual for random sets; with vcv and uncertainties: a covariance is returned, symmetric, PSD, '
-        'equal to J Q J^T (1e-12 relative); without uncertainties: None.  3 % of the judged calls are preceded by calls the property does not speak about (strings, None, numbers or malformed covariance where a parameter set, a date or a 3x3 matrix is required; a Transformation plus a number): not judged, exceptions swallowed.  in half of the shards the very first call of the process is made with whole-metre coordinates typed as int; expectations for shipped sets are built from the parameters as imported; every returned object that holds an array is kept with a copy and compared again after later calls (results are values: `earlier-result-changed-by-later-call`).  distinct = set x octant x radius decade x vcv kind')
+        'equal to J Q J^T (1e-12 relative); without uncertainties: None.  3 % of the judged calls are preceded by calls the property does not speak about (strings, None, numbers or malformed covariance where a parameter set, a date or a 3x3 matrix is required; a Transformation plus a number): not judged, exceptions swallowed.  in half of the shards the very first call of the process is made with whole-metre coordinates typed as int; expectations for shipped sets are built from the parameters as imported; every returned object that holds an array is kept with a copy and compared again after later calls (results are values: `earlier-result-changed-by-later-call`).  distinct = set x octant x radius decade x vcv kind Covariance classes include exactly-PSD integer rank-1/2 matrices scaled up to 1e12, any structure scaled down to 1e-14, sigmas differing by up to 1e6 inside one matrix, perfectly correlated components.')
 ASSUMPTIONS = ['helmert_exact rational evaluation (self-validated against mpmath and finite differences each shard)',
                'sign convention of the Australian technical manuals as written in the property statement: R = [[1,rz,-ry],[-rz,1,rx],[ry,-rx,1]]']
 N = {'quick': 1800, 'thorough': 30000}
